@@ -1183,6 +1183,7 @@ int Interpret::interpPipe() {
     bool inString = false;
     bool inQuotedSymbol = false;
     bool inEscape = false;
+    bool textOutsideCommand = false; // something other than white space and comments was seen since the last complete command
 
     bool done  = false;
     buf[0] = '\0';
@@ -1223,6 +1224,7 @@ int Interpret::interpPipe() {
                 continue;
             }
             assert(not inComment);
+            if (par == 0 and c != '(' and not isspace(static_cast<unsigned char>(c))) { textOutsideCommand = true; }
             if (inQuotedSymbol) {
                 inQuotedSymbol = (c != '|');
             } else if (not inString and c == '|') {
@@ -1270,6 +1272,7 @@ int Interpret::interpPipe() {
                     rd_head = rd_head-i-1;
 
                     i = -1; // will be incremented to 0 by the loop condition.
+                    textOutsideCommand = false; // whatever preceded the command goes to the parser with it
                     Smt2newContext context(buf_out);
                     int rval = osmt_yyparse(&context);
                     if (rval != 0)
@@ -1291,6 +1294,9 @@ int Interpret::interpPipe() {
     if (par > 0 and not f_exit) {
         // the input ended inside a command: file mode reports a syntax error for the same text
         notify_formatted(true, "pipe reader: unexpected end of input inside a command");
+    } else if (par == 0 and textOutsideCommand and not f_exit and not done) {
+        // file mode reports a syntax error for text that follows the last command
+        notify_formatted(true, "pipe reader: unexpected text after the last command");
     }
     free(buf);
     return 0;
